@@ -38,7 +38,8 @@ CHECKS = {
         technique='proposal-graph search for no-ops/cycles/pumps with real '
         'mutators in both replace-by-variable modes, confirmation by real '
         'runs against a set: predicate, per-call step/allocation budgets via '
-        'sys.monitoring, bounded progress of real runs',
+        'sys.monitoring (also on deep/wide terms), bounded progress of real '
+        'runs',
         text='Termination is monitored as three refutable bounded '
         'statements: no one-step no-op or short cycle among proposals '
         '(exhaustive to depth 2 on tiny seeds, random walks on larger), '
@@ -85,7 +86,7 @@ CHECKS = {
     'C07': dict(
         cat='exploration',
         technique='reference lexer/reader as oracle over the four real '
-        'renderers',
+        'renderers, on well-formed and cut-off/damaged texts',
         text='Trees produced by ddSMT\'s own parser from generated lexical '
         'corner cases are rendered by the four real renderers; an '
         'independent reader must get the same tokens and tree back from '
@@ -102,7 +103,8 @@ CHECKS = {
     'C09': dict(
         cat='exploration',
         technique='documented acceptance rule as executable oracle vs real '
-        'checker.check with real sub-processes; argv from command log',
+        'checker.check with real sub-processes and vs every verdict of real '
+        'parallel runs; argv from command log',
         text='The real do_golden_runs/check are driven with a scripted '
         'command whose exit code and streams are chosen per candidate; the '
         'verdict is compared with a 15-line statement of the documented '
@@ -129,7 +131,8 @@ CHECKS = {
     'C12': dict(
         cat='exploration',
         technique='nested-list model vs Node API, in-process and across a '
-        'fork pool',
+        'fork pool; histories of pickled inputs through the real ddmin '
+        'worker',
         text='Equality, hash, deepcopy, pickling through a real fork pool and '
         'all traversals/counters compared with a model on nested lists over '
         'random trees and near-equal pairs.',
@@ -165,15 +168,18 @@ CHECKS = {
     'C16': dict(
         cat='exploration',
         technique='generator typing as ground truth vs get_sort/get_bv_width '
-        'at every term position; cvc5 as reference sort checker for '
-        'same-sort replacements',
+        'at every term position over sequences of scripts in one process; '
+        'cvc5 as reference sort checker for same-sort replacements; '
+        'answers-now vs answers-after-fresh-collection invariant hooked '
+        'into real runs',
         text='Typed script generator knows the sort of every subterm; '
         'get_sort/get_bv_width must answer unknown or that sort.',
         ref='3/C16'),
     'C17': dict(
         cat='exploration',
         technique='independent SMT-LIB evaluator on (subterm, replacement) '
-        'pairs under exhaustive/sampled assignments',
+        'pairs under exhaustive/sampled assignments; definition-to-inline '
+        'vs definition-in-input invariant hooked into real runs',
         text='Instances for each identity mutator are generated, the real '
         'mutations() proposals are evaluated before/after by an independent '
         'evaluator under all (small domains) or sampled assignments.',
